@@ -31,7 +31,7 @@ NOTE_RE = re.compile(r'Maximum credit for attempt #(-?\d+) is (\d+(?:\.\d+)?)%\.
 def gates(tier):
     return {'schedule_values': 30000, 'grader_calls': 3000, 'reduced_results': 800,
             'note_checked': 400, 'zero_grade_entries': 300, 'missing_attempt': 30,
-            'recorded_attempt_checked': 100, 'history_calls': 1000}
+            'recorded_attempt_checked': 100, 'history_calls': 1000, 'registered_level_checks': 300}
 
 
 def linear_ref(after, steps, minimum, n):
@@ -293,6 +293,54 @@ def run_histories(ctx):
                     break
 
 
+def run_registered_levels(ctx):
+    """Attempt-based credit switched on through registered class defaults (docs/plugins.md, plugins/defaults_sample.py: "Precedence is
+    given to the registered defaults of higher level classes", higher level meaning the more derived class, as in the StringGrader /
+    AbstractGrader example just above that sentence): a grader is scaled by the schedule registered for the most derived class that
+    has one, and by the course-wide one otherwise."""
+    from mitxgraders import StringGrader, FormulaGrader, ListGrader, LinearCredit, GeometricCredit, ReciprocalCredit
+    from mitxgraders.baseclasses import AbstractGrader, ItemGrader
+    rng = ctx.rng
+    for rep in range(ctx.pick(6, 40)):
+        course = ReciprocalCredit()
+        items = LinearCredit(decrease_credit_after=2, decrease_credit_steps=2, minimum_credit=0.5)
+        strings = GeometricCredit(factor=0.9)
+        regs = [(AbstractGrader, {'attempt_based_credit': course, 'attempt_based_credit_msg': False}),
+                (ItemGrader, {'attempt_based_credit': items, 'attempt_based_credit_msg': True})]
+        three = rng.random() < 0.5
+        if three:
+            regs.append((StringGrader, {'attempt_based_credit': strings}))
+        rng.shuffle(regs)           # (the order of the register_defaults calls plays no role)
+        try:
+            for cls, d in regs:
+                cls.register_defaults(d)
+            probes = [('StringGrader', StringGrader(answers={'expect': 'cat', 'grade_decimal': 0.5}), 'cat', 0.5, strings if three else items, True),
+                      ('FormulaGrader', FormulaGrader(answers='x', variables=['x']), 'x', 1, items, True),
+                      ('ListGrader', ListGrader(answers=['cat', 'dog'], subgraders=StringGrader(attempt_based_credit=None), ordered=True), ['cat', 'dog'], 1, course, False)]
+            for name, g, inp, base, sched, note in probes:
+                for attempt in (1, 2, 3, 4, 9):
+                    out = lib.call(ctx, g, None, inp, attempt=attempt)
+                    ctx.ev()
+                    ctx.count('grader_calls')
+                    ctx.count('registered_level_checks')
+                    credit = round(float(sched(attempt)), 4)
+                    wit = {'grader': name, 'attempt': attempt, 'registered_on': [c.__name__ for c, _ in regs], 'schedule_in_force': type(sched).__name__,
+                           'outcome': out.brief()}
+                    ctx.nontrivial(['reglevel', name, attempt, three])
+                    if not out.returned:
+                        ctx.violation('C17:registered_levels:raises', repr(out.exc), wit)
+                        continue
+                    grades = [e['grade_decimal'] for e in out.value['input_list']] if 'input_list' in out.value else [out.value['grade_decimal']]
+                    msg = out.value.get('overall_message', out.value.get('msg', ''))
+                    if any(abs(gd - base * credit) > 1e-9 for gd in grades):
+                        ctx.violation('C17:registered_levels:wrong_schedule', 'grades %r, expected %r (= %r x %s(%d))' % (grades, base * credit, base, type(sched).__name__, attempt), wit)
+                    elif (('Maximum credit for attempt #%d' % attempt) in msg) != (note and credit < 1):
+                        ctx.violation('C17:registered_levels:note', 'message %r' % (msg,), wit)
+        finally:
+            for cls, _ in regs:
+                cls.clear_registered_defaults()
+
+
 def run(ctx):
     from mitxgraders import LinearCredit, GeometricCredit, ReciprocalCredit
     rng = ctx.rng
@@ -369,6 +417,8 @@ def run(ctx):
                  not ctx.quick)
 
     run_histories(ctx)
+    if ctx.shard % 4 == 2:
+        run_registered_levels(ctx)
 
     # recording author schedules: the library must ask for max(n, 1) exactly once
     for i in range(ctx.n(1600, 160000)):
